@@ -222,3 +222,67 @@ Proof.
   cbn [x_kind]. rewrite KK. cbn [x_kind].
   destruct (Pos.eqb_spec (c_kind c) kBuiltin); [contradiction | reflexivity].
 Qed.
+
+(* ---- one extends level with clause modifiers: the environment *)
+(* one extends level WITH clause modifiers: every base is extends-free *)
+Definition simple_base_m (root : list cdef) (c : cdef) (lex : path) (e : path * list marg) (b : cdef * path) : Prop :=
+  find_base root c lex (fst e) = Ok b /\ c_exts (fst b) = [] /\ c_kind (fst b) <> kBuiltin /\
+  path_eqb (snd b ++ [c_name (fst b)]) (lex ++ [c_name c]) = false.
+
+Definition merge_base_m (x : ext_class) (bm : (cdef * path) * list marg) : ext_class :=
+  mkExt (x_kind x)
+        (od_update e_key Pos.eqb (x_classes x)
+           (od_update e_key Pos.eqb [] (entries_of (snd (fst bm) ++ [c_name (fst (fst bm))]) (c_classes (fst (fst bm))))))
+        (od_update s_name Pos.eqb (x_syms x) (od_update s_name Pos.eqb [] (c_syms (fst (fst bm)))))
+        (x_eqs x ++ c_eqs (fst (fst bm)))
+        (x_menv x ++ snd bm).
+
+Lemma fold_bases_m root f c lex : forall exts bases x,
+  Forall2 (simple_base_m root c lex) exts bases ->
+  fold_left (fun (acc : res ext_class) (e : path * list marg) =>
+     x <- acc ;;
+     b <- find_base root c lex (fst e) ;;
+     let (bc, blex) := b in
+     if path_eqb (blex ++ [c_name bc]) (lex ++ [c_name c]) then Err OtherExc else
+     if Pos.eqb (c_kind bc) kBuiltin && (1 <? length (c_exts c))%nat then Err OtherExc else
+     let kind' := if Pos.eqb (c_kind bc) kBuiltin then kBuiltin else x_kind x in
+     r <- flatten_extends root (S f) bc blex (snd e) ;;
+     Ok (mkExt kind'
+           (od_update e_key Pos.eqb (x_classes x) (x_classes r))
+           (od_update s_name Pos.eqb (x_syms x) (x_syms r))
+           (x_eqs x ++ x_eqs r)
+           (x_menv x ++ x_menv r))) exts (Ok x)
+  = Ok (fold_left merge_base_m (combine bases (map snd exts)) x).
+Proof.
+  intros exts bases x F. revert x.
+  induction F as [|e [bc blex] exts bases [Hf [He [Hk Hp]]] F IH]; intros x; [reflexivity|].
+  cbn [fold_left bind map combine]. rewrite Hf. cbn [bind fst snd] in *. rewrite Hp.
+  destruct (Pos.eqb_spec (c_kind bc) kBuiltin) as [E|_]; [contradiction|]. cbn [andb].
+  rewrite (flatten_extends_no_extends root f bc blex (snd e) He Hk). cbn [bind x_classes x_syms x_eqs x_menv].
+  apply IH.
+Qed.
+
+Lemma fold_m_env {R : path * list marg -> cdef * path -> Prop} : forall exts bases x0,
+  Forall2 R exts bases ->
+  x_kind (fold_left merge_base_m (combine bases (map snd exts)) x0) = x_kind x0 /\
+  x_menv (fold_left merge_base_m (combine bases (map snd exts)) x0) = x_menv x0 ++ flat_map snd exts.
+Proof.
+  intros exts bases x0 F. revert x0. induction F as [|e b exts bases _ F IH]; intros x0.
+  - cbn. rewrite app_nil_r. split; reflexivity.
+  - cbn [map combine fold_left flat_map]. destruct (IH (merge_base_m x0 (b, snd e))) as [G1 G2].
+    rewrite G1, G2. cbn [merge_base_m x_kind x_menv snd]. rewrite app_assoc. split; reflexivity.
+Qed.
+
+(* the modification environment after the extends clauses: the clause modifiers in clause order, then the
+   incoming environment (of the enclosing component / the deriving extends clause) *)
+Lemma flatten_extends_clause_env root f c lex menv bases :
+  Forall2 (simple_base_m root c lex) (c_exts c) bases -> c_kind c <> kBuiltin ->
+  exists x, flatten_extends root (S (S f)) c lex menv = Ok x /\
+            x_menv x = flat_map snd (c_exts c) ++ menv.
+Proof.
+  intros F K. cbn [flatten_extends]. rewrite (fold_bases_m root f c lex _ _ _ F). cbn [bind].
+  destruct (fold_m_env (c_exts c) bases (mkExt (c_kind c) [] [] [] []) F) as [KK KM].
+  cbn [x_kind x_menv app] in KK, KM. cbn [x_kind]. rewrite KK.
+  destruct (Pos.eqb_spec (c_kind c) kBuiltin); [contradiction|].
+  eexists. split; [reflexivity|]. cbn [x_menv]. rewrite KM. reflexivity.
+Qed.
